@@ -144,7 +144,7 @@ def gen_case(kind, profile, seed, tier='quick'):
         rng = random.Random('repro/%s' % seed)
         return {'kind': 'repro', 'sc': sc, 'hashseeds': [1, rng.randint(2, 4000), rng.randint(4001, 2 ** 31)],
                 # another simulation, abandoned part-way, runs in the same process between the two runs
-                'interloper': {'seed': 'x/%s' % seed, 'until': rng.randint(1, 12)}}
+                'interloper': {'seed': 'x/%s' % seed, 'until': rng.randint(1, 12), 'vuntil': rng.randint(1, 10)}}
     if kind == 'pause':
         sc = S.gen(seed, profile)
         rng = random.Random('pause/%s' % seed)
@@ -168,6 +168,10 @@ def gen_case(kind, profile, seed, tier='quick'):
                 'degree': rng.choice(['LOW', 'MID', 'HIGH', 'NONE']),
                 'prob': rng.choice([0.0, 0.05, 0.3, 0.5, 0.9, 1.0]), 'seed': rng.choice([20, 0, 1, 7, 99, rng.randint(0, 10 ** 6)]),
                 'runtimes': sorted(set([0, 1, 2] + [rng.randint(0, 60) for _ in range(8)])),
+                # other models used in the same interpreter between two evaluations of this one: same
+                # distribution and seed with another degree / probability (a parameter sweep), or anything
+                'prelude': [[rng.choice(['same', 'normal', 'poisson', 'uniform']), rng.choice(['LOW', 'MID', 'HIGH', 'NONE']),
+                             rng.choice([0.0, 0.3, 1.0]), rng.choice(['same', 20, 0, 7])] for _ in range(rng.randint(0, 3))],
                 'fresh': rng.random() < 0.1}
     raise ValueError(kind)
 
@@ -323,7 +327,19 @@ def exec_repro(case, d):
     def add(clause, msg, site=''):
         viol.append(dict(prop='C10', clause=clause, site=site, msg=msg[:300], t=None, seq=None))
     if case.get('interloper'):
-        # state must not leak from one Simulation object to the next in the same interpreter
+        # state must not leak from one Simulation object to the next in the same interpreter: first the same
+        # configuration with another delay degree (a parameter sweep), abandoned part-way ...
+        try:
+            vsc = copy.deepcopy(sc)
+            dm = vsc['faults'].get('delay_model')
+            if dm:
+                dm['degree'] = {'LOW': 'HIGH', 'MID': 'LOW', 'HIGH': 'MID', 'NONE': 'HIGH'}[dm['degree']]
+                dm['prob'] = 1.0
+            sut.run_scenario(vsc, d, monitor='light', until=case['interloper'].get('vuntil', case['interloper']['until']))
+            out['faults']['F6:variant'] = 1
+        except Exception:
+            pass
+        # ... then an unrelated one
         try:
             isc = S.gen(case['interloper']['seed'], 'repro')
             isc['faults']['delay_model'] = None
@@ -613,7 +629,7 @@ def exec_units(case, d):
         for e in hk.execs:
             if e['ingest'] or e['machine'] not in sc['machines']:
                 continue
-            on, nd = e['tid'].split('_')[0], int(e['tid'].rsplit('_', 1)[1])
+            on, nd = e['tid'].split('_')[0], S.node_of_tid(e['tid'])
             node = svk.nodes(on).get(nd)
             m = sc['machines'][e['machine']]
             if node is None or node[0] <= 0 or node[0] % (m['flops'] * k) or (node[1] and node[1] % (m['compute_bandwidth'] * k)):
@@ -643,11 +659,11 @@ def exec_units(case, d):
                 if abs(ok_.ob[n]['dep'] - o1.ob[n]['dep']) > 1e-6:
                     out['violations'].append(dict(prop='C16', clause='deposited_volume_depends_on_unit', site='', t=None, seq=None,
                                                   msg='%s: %s vs %s' % (n, ok_.ob[n]['dep'], o1.ob[n]['dep'])))
-            ek = {(e['tid'].split('_')[0], e['tid'].rsplit('_', 1)[1]): e for e in ok_.execs if not e['ingest']}
-            e1 = {(e['tid'].split('_')[0], e['tid'].rsplit('_', 1)[1]): e for e in o1.execs if not e['ingest']}
+            ek = {(e['tid'].split('_')[0], S.node_of_tid(e['tid'])): e for e in ok_.execs if not e['ingest']}
+            e1 = {(e['tid'].split('_')[0], S.node_of_tid(e['tid'])): e for e in o1.execs if not e['ingest']}
             sv = S.StepView(sc)
             for key in ek:
-                nd = sv.nodes(key[0]).get(int(key[1]))
+                nd = sv.nodes(key[0]).get(key[1])
                 m = ek[key]['machine']
                 # only demands that are whole multiples of one timestep of machine capacity
                 whole = nd is not None and m in sv.cpu and nd[0] >= sv.cpu[m] and nd[0] % sv.cpu[m] == 0 \
@@ -684,6 +700,10 @@ def exec_delaymodel(case, d):
         if not any(v['clause'] == clause and v['site'] == site for v in viol):
             viol.append(dict(prop='C15', clause=clause, site=site, msg=msg[:300], t=None, seq=None))
     a = _dm_eval(case)
+    for (dist, degree, prob, seed) in case.get('prelude') or []:
+        other = dict(case, dist=case['dist'] if dist == 'same' else dist, degree=degree, prob=prob,
+                     seed=case['seed'] if seed == 'same' else seed)
+        _dm_eval(other)
     b = _dm_eval(case)
     fired = 0
     for (rt, v), (_, w) in zip(a, b):
@@ -763,6 +783,10 @@ def _sc_candidates(sc):
         c = copy.deepcopy(sc)
         c['faults']['stalls'] = {}
         yield c
+    if f.get('norelease'):
+        c = copy.deepcopy(sc)
+        c['faults']['norelease'] = False
+        yield c
     if f.get('delay_model'):
         c = copy.deepcopy(sc)
         c['faults']['delay_model'] = None
@@ -799,6 +823,8 @@ def _sc_candidates(sc):
         c = copy.deepcopy(sc)
         last = sorted(c['machines'])[-1]
         del c['machines'][last]
+        if c.get('machine_order'):
+            c['machine_order'] = [m for m in c['machine_order'] if m != last]
         nm = len(c['machines'])
         c['max_ingest'] = min(c['max_ingest'], nm)
         for o in c['obs']:
@@ -811,6 +837,15 @@ def _sc_candidates(sc):
             if ap.get('resource_split'):
                 ap['resource_split'] = {k2: [min(v[0], nm), min(max(v[1], min(v[0], nm)), nm)] for k2, v in ap['resource_split'].items()}
         yield c
+    if sc.get('machine_order'):
+        c = copy.deepcopy(sc)
+        c['machine_order'] = None
+        yield c
+    for w in sorted({o['wf'] for o in sc['obs']}):
+        if sc['wfs'][w].get('label'):
+            c = copy.deepcopy(sc)
+            c['wfs'][w].pop('label')
+            yield c
     # unit -> seconds
     if sc['unit'] != 'seconds':
         k = S.unit_factor(sc['unit'])
@@ -890,6 +925,10 @@ def shrink_candidates(case):
             del c['cfg']['machines'][sorted(ms)[-1]]
             yield c
     elif k == 'delaymodel':
+        for i in range(len(case.get('prelude') or [])):
+            c = copy.deepcopy(case)
+            del c['prelude'][i]
+            yield c
         for i in range(len(case['runtimes'])):
             if len(case['runtimes']) > 1:
                 c = copy.deepcopy(case)
